@@ -8,7 +8,8 @@ extracted Geom model: written geometry tokens and the dumped HalfSpace object; t
 parser builds versus the tree of the modelled actions; the model's reference parser versus spec.parse_geometry.
 Oracle (independent of the model): truth tables of the text read (spec.py), of the HalfSpace object walked
 in Python (left/right/operator/divider/side) and of the written text must agree; &, |, ~ must have
-And/Or/Not meaning on the objects.
+And/Or/Not meaning on the objects.  Truth tables are exhaustive up to 16 distinct leaves (bit-parallel), sampled
+(4096 assignments) above.
 """
 import json
 import os
@@ -117,6 +118,98 @@ def dump_tree(node):
     if op == "#":
         return "(# %s)" % dump_tree(n["left"])
     return "(%s %s %s)" % (op, dump_tree(n["left"]), dump_tree(n["right"]))
+
+
+def dump_nodes(node):
+    """the syntax nodes behind a HalfSpace after the write -> alphabet of Geom.show_nodes (the "shift" node that
+    promotes a lone number is transparent; "geom parens" nodes are (p x); a complement node with parentheses of
+    its own is (#p x))"""
+    from montepy.input_parser.syntax_node import GeometryTree, ValueNode
+    if isinstance(node, ValueNode):
+        return ("-" if node.is_negative else "+") + str(int(abs(node.value)))
+    if not isinstance(node, GeometryTree):
+        return "?" + type(node).__name__
+    op = node.operator.value
+    n = node.nodes
+    if op == ">":
+        if "start_pad" in n and "(" in n["start_pad"].format():
+            return "(p %s)" % dump_nodes(n["left"])
+        return dump_nodes(n["left"])
+    if op == "#":
+        return "(%s %s)" % ("#p" if "start_pad" in n else "#", dump_nodes(n["left"]))
+    # the operator that is written: the text of the operator padding without its comments (GeometryTree.operator
+    # itself is not updated by the HalfSpace.operator setter; only the padding text is)
+    from montepy.input_parser.syntax_node import CommentNode, PaddingNode
+    text = "".join(x.format() if isinstance(x, PaddingNode) else x for x in n["operator"].nodes
+                   if not isinstance(x, CommentNode))
+    return "(%s %s %s)" % (":" if ":" in text else "*", dump_nodes(n["left"]), dump_nodes(n["right"]))
+
+
+# ---------------------------------------------------------------------------- truth tables
+EXHAUSTIVE_LEAVES = 16
+SAMPLED_ASSIGNMENTS = 4096
+
+
+def ast_leaves(a, acc=None):
+    acc = set() if acc is None else acc
+    k = a[0]
+    if k == "leaf":
+        acc.add(("s", a[2]))
+    elif k == "cell":
+        acc.add(("c", a[1]))
+    else:
+        for x in a[1:]:
+            ast_leaves(x, acc)
+    return acc
+
+
+def _table(a, col, mask):
+    k = a[0]
+    if k == "leaf":
+        v = col[("s", a[2])]
+        return v if a[1] > 0 else mask & ~v
+    if k == "cell":                       # "#n": outside cell n
+        return mask & ~col[("c", a[1])]
+    if k == "not":
+        return mask & ~_table(a[1], col, mask)
+    x = _table(a[1], col, mask)
+    y = _table(a[2], col, mask)
+    return (x & y) if k == "and" else (x | y)
+
+
+def truth_equal(a, b, stats=None):
+    """Boolean-function equality of two spec ASTs: the whole truth table over the union of their leaves as one
+    integer (bit i = assignment i); exhaustive up to EXHAUSTIVE_LEAVES leaves, else SAMPLED_ASSIGNMENTS random
+    assignments (a search aid only: the theorem is the claim)"""
+    leaves = sorted(ast_leaves(a) | ast_leaves(b))
+    n = len(leaves)
+    col = {}
+    if n <= EXHAUSTIVE_LEAVES:
+        rows = 1 << n
+        mask = (1 << rows) - 1
+        for i, l in enumerate(leaves):
+            # column i: bit r is set iff bit i of r is set = the block 0..01..1 (2^i zeros, 2^i ones) repeated
+            period = 1 << (i + 1)
+            block = ((1 << (1 << i)) - 1) << (1 << i)
+            col[l] = block * (((1 << rows) - 1) // ((1 << period) - 1))
+        if stats is not None:
+            stats["exhaustive"] = stats.get("exhaustive", 0) + 1
+    else:
+        rows = SAMPLED_ASSIGNMENTS
+        mask = (1 << rows) - 1
+        rng = random.Random("C02-table:%d" % n)
+        for l in leaves:
+            col[l] = rng.getrandbits(rows)
+        if stats is not None:
+            stats["sampled"] = stats.get("sampled", 0) + 1
+    return _table(a, col, mask) == _table(b, col, mask)
+
+
+TABLE_STATS = {}
+
+
+def geom_equal(a, b):
+    return truth_equal(a, b, TABLE_STATS)
 
 
 # ---------------------------------------------------------------------------- text side (spec.py)
@@ -447,11 +540,13 @@ def observe(case):
     try:
         ob["obj"] = walk(res)
         ob["obj_dump"] = dump_hs(res)
+        ob["obj_str"] = str(res)
         if target.geometry is not res:
             target.geometry = res
         with warnings.catch_warnings():
             warnings.simplefilter("ignore")
             out = target.format_for_mcnp_input(VERSION)
+        ob["nodes"] = dump_nodes(res.node)
     except RecursionError:
         ob["outcome"] = "exc:RecursionError"
         return ob
@@ -478,7 +573,7 @@ def judge(case, ob):
     if case.get("base_lines"):
         if ob["base_ast"] is None:
             return None                               # the oracle cannot read the generated text: not a verdict
-        if not spec.geom_equal(ob["base_ast"], ob["obj0"]):
+        if not geom_equal(ob["base_ast"], ob["obj0"]):
             return {"kind": "read-object-differ", "text": show_ast(ob["base_ast"]), "object": show_ast(ob["obj0"])}
     if ob.get("outcome") == "err:guard":
         return None
@@ -486,12 +581,12 @@ def judge(case, ob):
         return {"kind": "exception", "exception": ob["outcome"][4:], "detail": ob.get("detail", "")}
     if case.get("prog"):
         sh = shadow(case["prog"], ob["obj0"])
-        if sh is not None and sh != ob["obj"]:
+        if sh is not None and not geom_equal(sh, ob["obj"]):
             return {"kind": "operator-meaning", "expected": show_ast(sh), "object": show_ast(ob["obj"])}
     if ob["written_ast"] is None:
         return {"kind": "written-unparsable", "written": ob["written_lines"], "error": ob.get("written_error"),
                 "object": show_ast(ob["obj"])}
-    if not spec.geom_equal(ob["obj"], ob["written_ast"]):
+    if not geom_equal(ob["obj"], ob["written_ast"]):
         return {"kind": "object-written-differ", "object": show_ast(ob["obj"]),
                 "written": ob["written_lines"], "written_means": show_ast(ob["written_ast"])}
     return None
@@ -509,7 +604,7 @@ def request_of(case, ob):
 
 def real_answer(ob):
     if ob.get("outcome") == "ok":
-        return "%s|%s" % (",".join(ob["written_tokens"]) or "-", ob["obj_dump"])
+        return "%s|%s|%s|%s" % (",".join(ob["written_tokens"]) or "-", ob["obj_dump"], ob["obj_str"], ob["nodes"])
     return ob.get("outcome", "?")
 
 
